@@ -31,7 +31,7 @@ ASSUMPTIONS = ['manually triggered/set instances are exempt from the re-run '
                'run again']
 MIN = {'c08.child_flow_checks': 800, 'c08.new_flow_allocations': 60,
        'c08.merges_seen': 15, 'c08.rerun_checks': 500}
-NCASES = {'quick': 500, 'thorough': 6000}
+NCASES = {'quick': 300, 'thorough': 4000}
 MONS = ['c08', 'c26']
 
 
